@@ -19,7 +19,7 @@ def model_out(ans):
     return "" if ans == "" else "".join(uncps(x) + "\n" for x in ans.split(";"))
 
 
-def one_case(ctx, res, stream, cfg, texts, use_stdin=False, check_idem=True, as_filter=False):
+def one_case(ctx, res, stream, cfg, texts, use_stdin=False, check_idem=True, as_filter=False, dash=None):
     from moto_nl.nl import NumberLineCli
     start, incr, width = cfg
     st = res.stream(stream)
@@ -30,10 +30,12 @@ def one_case(ctx, res, stream, cfg, texts, use_stdin=False, check_idem=True, as_
         # no file argument at all: the tool is a filter of its standard input
         texts = texts[:1]
         use_stdin = True
+    # standard input is named by "-" at any place among the files (its lines are numbered where it stands)
+    dash_at = (dash if dash is not None else len(texts) - 1 if (start + width) % 3 else (start + incr + width) % len(texts)) if use_stdin and not as_filter else None
     for k, t in enumerate(texts):
         if as_filter:
             break
-        if use_stdin and k == len(texts) - 1:
+        if use_stdin and k == dash_at:
             argv.append("-")
         else:
             p = os.path.join(d, f"f{k}.lst")
@@ -42,7 +44,7 @@ def one_case(ctx, res, stream, cfg, texts, use_stdin=False, check_idem=True, as_
             argv.append(p)
     stdin_text = None
     if use_stdin:
-        stdin_text = texts[-1].replace("\r\n", "\n").replace("\r", "\n")
+        stdin_text = texts[-1 if as_filter else dash_at].replace("\r\n", "\n").replace("\r", "\n")
     status, out = run_cli(NumberLineCli().run, argv, stdin_text=stdin_text)
     req = " ".join(cps(t) for t in texts)
     m, s = drv([f"nl {start} {incr} {width} {req}", f"spec.nl {start} {incr} {width} {req}"])
@@ -105,6 +107,8 @@ def run(ctx, res):
     for cfg, texts in fixed:
         one_case(ctx, res, "fixed", cfg, texts)
         one_case(ctx, res, "fixed", cfg, texts, as_filter=True)
+    for dash in (0, 1, 2):
+        one_case(ctx, res, "fixed", (10, 10, 0), ["first\n", "25 second\n", "third"], use_stdin=True, dash=dash)
     one_case(ctx, res, "fixed", (10, 5, 0), ["a\x0cb\nu\u2028v\n5\uff10 REM\nnext\n n\x85m \n"], as_filter=True)
     res.sample({"cfg": fixed[0][0], "texts": fixed[0][1]})
     for i in range(ctx.n(600, 5000)):
@@ -116,6 +120,11 @@ def run(ctx, res):
         one_case(ctx, res, "random", cfg, texts, use_stdin=r < 0.25, as_filter=0.25 <= r < 0.4)
         if i == 3:
             res.sample({"cfg": cfg, "texts": texts})
+    # big files: thousands of lines, tens of kilobytes (a reader with a size limit or a buffer would drop or cut lines)
+    for nlines, cfg in ((1000, (10, 10, 0)), (2500, (1, 1, 5)), (6000, (100, 5, 0))) if not ctx.thorough else ((1000, (10, 10, 0)), (2500, (1, 1, 5)), (6000, (100, 5, 0)), (40000, (1, 1, 0))):
+        big = "".join(("%d REM already numbered %d\n" % (7 * k, k)) if k % 5 == 0 else ("PRINT \"LINE %d\";X%d:GOTO %d\n" % (k, k % 97, k)) for k in range(1, nlines + 1))
+        one_case(ctx, res, "big_files", cfg, [big], check_idem=False)
+        one_case(ctx, res, "big_files", cfg, ["A\n", big, "Z\n"], use_stdin=(nlines == 2500), check_idem=False)
     # exhaustive small scope: all k-line texts over 6 line shapes x configurations
     K = 4 if ctx.thorough else 3
     shapes = ["", "A", "10 B", "7", "0 C", " 5"]
